@@ -7,6 +7,7 @@ content (children excluded)."""
 from __future__ import annotations
 
 import json
+import re
 
 from common import Reporter, conclude, guarded, proof_cov, rng_for, supported
 import configs
@@ -51,6 +52,7 @@ def shift(ds, k):
 
 
 LIST_OPEN = ("bullet_list_open", "ordered_list_open")
+ITEM_START = re.compile(r"([-+*]|\d{1,9}[.)])( |\n)")
 CONTAINER_OPEN = LIST_OPEN + ("list_item_open", "blockquote_open")
 
 
@@ -84,8 +86,8 @@ def side_conditions(md, a, b, ta, tb):
     # not list + list or code + code at the seam
     last_top = [t for t in ta if t["level"] == 0][-1]["type"]
     first_top = tb[0]["type"]
-    if last_top.endswith("list_close") and first_top in LIST_OPEN:
-        return False
+    if last_top.endswith("list_close") and (first_top in LIST_OPEN or ITEM_START.match(b)):
+        return False    # B's first line is a list item: it continues A's list whatever B is on its own (e.g. a table header)
     if last_top == "code_block" and first_top == "code_block":
         return False
     return True
